@@ -85,14 +85,41 @@ class Codes:
         return self.t.get(k, 'UNKNOWN%r' % (k,))
 
 
-def expand(hop, codes):
-    '''high-level op -> list of model ops (Gallina text)'''
+class Names:
+    '''names of one evaluation file as Coq definitions (parsed once)'''
+
+    def __init__(self):
+        self.t = {}
+
+    def __call__(self, s):
+        assert all(32 <= ord(c) < 127 and c != '"' for c in s), s
+        if s not in self.t:
+            self.t[s] = 'n%d' % len(self.t)
+        return self.t[s]
+
+    def preamble(self):
+        return ''.join('Definition %s := NM "%s".\n' % (v, k)
+                       for k, v in self.t.items())
+
+
+def expand(hop, codes, N=g_name):
+    '''high-level op -> Gallina expression of type list op (one group)'''
     k = hop['op']
+
+    def ident(vn, vver):
+        return '(mkid %s %s %s %s %s %s %s)' % (
+            N(hop['task']), N(hop['alg']), g_ver(hop['aver']), N(hop['sv']),
+            g_ver(hop['sver']), N(vn), g_ver(vver))
+
+    def head():
+        return '%s %s %s %s %s %s %s' % (
+            g_z(hop['run']), N(hop['tn']), N(hop['task']), N(hop['alg']),
+            g_ver(hop['aver']), N(hop['sv']), g_ver(hop['sver']))
+
     if k == 'add':
-        return ['OAdd %s' % g_name(hop['tn'])]
+        return '[OAdd %s]' % N(hop['tn'])
     if k == 'reg':
-        return ['OReg %s' % g_ident(hop['task'], hop['alg'], hop['aver'],
-                                    hop['sv'], hop['sver'], hop['vn'], hop['vver'])]
+        return '[OReg %s]' % ident(hop['vn'], hop['vver'])
     if k == 'upd':
         out = []
         for i, (vn, vver, c) in enumerate(hop['vals']):
@@ -102,44 +129,31 @@ def expand(hop, codes):
                 if n < 0:
                     break
                 if n < 6:
-                    steps = '(Some %d)' % n
-            out.append('OUpd %s %s %s %s %s' % (
-                g_z(hop['run']), g_name(hop['tn']),
-                g_ident(hop['task'], hop['alg'], hop['aver'], hop['sv'],
-                        hop['sver'], vn, vver),
-                g_z(codes.of(c, vver)), steps))
+                    steps = 'Some %d' % n
+            out.append('(%s,%s,%s,%s)' % (N(vn), g_ver(vver),
+                                          g_z(codes.of(c, vver)), steps))
             if steps != 'None':
                 break
-        return out
+        return 'hl_upd %s [%s]' % (head(), ';'.join(out))
     if k == 'load':
-        out = []
-        for vn, vver in hop['vals']:
-            out.append('OLoad %s %s %s' % (
-                g_z(hop['run']), g_name(hop['tn']),
-                g_ident(hop['task'], hop['alg'], hop['aver'], hop['sv'],
-                        hop['sver'], vn, vver)))
-        for vn, vver in MSV[2]:
-            out.append('OLoad %s %s %s' % (
-                g_z(hop['run']), g_name(hop['tn']),
-                g_ident(hop['task'], hop['alg'], hop['aver'], MSV[0], MSV[1],
-                        vn, vver)))
-        return out
+        return 'hl_load %s [%s]' % (head(), ';'.join(
+            '(%s,%s)' % (N(vn), g_ver(vver)) for vn, vver in hop['vals']))
     if k == 'remove':
-        return ['ORemove %s %s %s %s %s %s' % (
-            g_z(hop['run']), g_name(hop['tn']), g_name(hop['task']),
-            g_name(hop['alg']), g_name(hop['sv']), g_name(hop['vn']))]
+        return '[ORemove %s %s %s %s %s %s]' % (
+            g_z(hop['run']), N(hop['tn']), N(hop['task']),
+            N(hop['alg']), N(hop['sv']), N(hop['vn']))
     if k == 'reopen':
-        return ['OReopen']
+        return '[OReopen]'
     if k == 'next':
-        return ['ONext']
+        return '[ONext]'
     if k == 'trace':
-        return ['OTrace [%s]' % ';'.join(
-            '(%s,%s)' % (g_name(a), g_name(b)) for a, b in hop['tans'])]
+        return '[OTrace [%s]]' % ';'.join(
+            '(%s,%s)' % (N(a), N(b)) for a, b in hop['tans'])
     if k == 'reset':
-        return ['OReset %s %s %s %s' % (g_z(hop['run']), g_name(hop['tn']),
-                                        g_name(hop['task']), g_name(hop['alg']))]
+        return '[OReset %s %s %s %s]' % (g_z(hop['run']), N(hop['tn']),
+                                         N(hop['task']), N(hop['alg']))
     if k == 'names':
-        return ['ONames']
+        return '[ONames]'
     raise ValueError(k)
 
 
@@ -181,11 +195,10 @@ def _flat_key(k):
     return tuple(k)
 
 
-def canon_model(hop, subobs):
-    '''model observations of the sub-ops of one high-level op'''
+def canon_model(hop, gob):
+    '''model observation of the group of one high-level op'''
     k = hop['op']
-    reps = [o[0] for o in subobs]
-    last = subobs[-1]
+    reps, lens, prime, store, stage = gob
 
     def tag(x):
         return x[0] if isinstance(x, tuple) else x
@@ -208,8 +221,8 @@ def canon_model(hop, subobs):
     elif k == 'trace':
         rows = []
         for tn, row in reps[0][1]:
-            rows.append((s_name(tn), tuple(sorted(
-                (s_name(t) + '.' + s_name(a), run) for t, a, run in row))))
+            rows.append((s_name(tn), tuple(sorted(set(
+                (s_name(t) + '.' + s_name(a), run) for t, a, run in row)))))
         r = ('trace', tuple(sorted(rows)))
     elif k == 'reset':
         out = []
@@ -233,7 +246,6 @@ def canon_model(hop, subobs):
         r = ('names', tuple(sorted(out)))
     else:
         r = ('unit',)
-    _, lens, prime, store, stage = last
     prime = tuple(sorted((tuple(e[:6]), e[6]) for e in prime))
     store = tuple(sorted(c for _, c in store))
     stage = tuple(sorted(-1 if c is None else c[1] for c in stage))
@@ -251,9 +263,24 @@ TARGETS = ['T', 'TT', 'T1', 'U', '__all__']
 VERS = [(1, 0, 0), (1, 1, 0), (1, 10, 0), (1, 1, 10), (11, 0, 0), (1, 0, 1), (2, 0, 0)]
 
 
+WEIGHTS = {
+    #        upd   load  remove reopen bump  add   reg   next  names trace reset  crash
+    'C06': (0.32, 0.30, 0.10, 0.06, 0.14, 0.02, 0.02, 0.01, 0.02, 0.005, 0.005, 0.10),
+    'C07': (0.50, 0.12, 0.06, 0.10, 0.08, 0.02, 0.02, 0.02, 0.04, 0.02, 0.02, 0.35),
+    'C08': (0.28, 0.08, 0.16, 0.10, 0.10, 0.04, 0.05, 0.05, 0.05, 0.05, 0.04, 0.10),
+}
+SIZES = {   # focus -> (random quick, sweeps quick, random thorough, sweeps thorough)
+    'C06': (60, 4, 700, 40),
+    'C07': (36, 24, 400, 400),
+    'C08': (64, 4, 700, 40),
+}
+
+
 class Gen:
-    def __init__(self, rng, small=False):
+    def __init__(self, rng, small=False, focus='C08'):
         self.rng = rng
+        self.w = WEIGHTS[focus]
+        self.updated = []
         self.ver = {}
         k = 3 if small else None
         self.algs = rng.sample(ALGS, k or rng.randint(2, 5))
@@ -261,10 +288,13 @@ class Gen:
         if rng.random() < 0.8 and not any(
                 a != b and b.startswith(a) for a in self.algs for b in self.algs):
             self.algs[:2] = rng.choice([['a', 'ab'], ['alg', 'alg2'], ['ab', 'abc']])
-        self.svs = rng.sample(SVS, rng.randint(2, 3))
-        self.vals = rng.sample(VALS, rng.randint(2, 4))
-        self.tasks = rng.sample(TASKS, rng.randint(1, 3))
-        self.targets = rng.sample(TARGETS, rng.randint(2, 3))
+        tight = focus == 'C06' or small
+        self.svs = rng.sample(SVS, 2 if tight else rng.randint(2, 3))
+        self.vals = rng.sample(VALS, 2 if tight else rng.randint(2, 4))
+        self.tasks = rng.sample(TASKS, rng.randint(1, 2) if tight else rng.randint(1, 3))
+        self.targets = rng.sample(TARGETS, 2 if tight else rng.randint(2, 3))
+        if tight:
+            self.algs = self.algs[:3]
 
     def v(self, *key):
         return self.ver.setdefault(key, (1, 0, 0))
@@ -276,35 +306,48 @@ class Gen:
 
     def op(self, allow_crash=True):
         r = self.rng
-        x = r.random()
+        w = self.w
+        cum, acc = [], 0.0
+        for x in w[:11]:
+            acc += x
+            cum.append(acc)
+        x = r.random() * acc
+        kind = ['upd', 'load', 'remove', 'reopen', 'bump', 'add', 'reg', 'next',
+                'names', 'trace', 'reset'][[i for i, c in enumerate(cum) if x <= c][0]]
         run = r.randint(1, 4) if r.random() < 0.9 else r.choice([0, 10, 11, 31, -1])
         tn = r.choice(self.targets)
         task, alg, aver, sv, sver = self.ident()
-        if x < 0.30:
+        if kind == 'upd':
             vns = r.sample(self.vals, r.randint(1, 2))
             vals = [[vn, list(self.v('v', task, alg, sv, vn)), r.randint(0, 3)]
                     for vn in vns]
             crash = None
-            if allow_crash and r.random() < 0.2:
+            if allow_crash and r.random() < w[11]:
                 crash = r.randint(1, 6 * len(vals))
+            self.updated.append((tn, task, alg, sv, vns))
             return {'op': 'upd', 'run': run, 'tn': tn, 'task': task, 'alg': alg,
                     'aver': list(aver), 'sv': sv, 'sver': list(sver),
                     'vals': vals, 'crash': crash}
-        if x < 0.48:
+        if kind == 'load':
             vns = r.sample(self.vals, r.randint(1, 2))
+            if self.updated and r.random() < 0.7:
+                tn, task, alg, sv, vns = r.choice(self.updated)
+                aver, sver = self.v('a', task, alg), self.v('s', task, alg, sv)
+                if r.random() < 0.2:
+                    tn = r.choice(self.targets)
             return {'op': 'load', 'run': run, 'tn': tn, 'task': task, 'alg': alg,
                     'aver': list(aver), 'sv': sv, 'sver': list(sver),
                     'vals': [[vn, list(self.v('v', task, alg, sv, vn))] for vn in vns]}
-        if x < 0.60:
+        if kind == 'remove':
             if r.random() < 0.15:
                 tn = r.choice(TARGETS)
             if r.random() < 0.1:
                 task = r.choice(TASKS)
             return {'op': 'remove', 'run': run, 'tn': tn, 'task': task,
                     'alg': alg, 'sv': sv, 'vn': r.choice(self.vals)}
-        if x < 0.68:
+        if kind == 'reopen':
             return {'op': 'reopen'}
-        if x < 0.78:   # version bump (no operation on the database)
+        if kind == 'bump':   # version bump (no operation on the database)
             which = r.choice('asv')
             nv = r.choice(VERS)
             if which == 'a':
@@ -314,18 +357,18 @@ class Gen:
             else:
                 self.ver[('v', task, alg, sv, r.choice(self.vals))] = nv
             return None
-        if x < 0.81:
+        if kind == 'add':
             return {'op': 'add', 'tn': r.choice(TARGETS)}
-        if x < 0.84:
+        if kind == 'reg':
             vn = r.choice(self.vals)
             return {'op': 'reg', 'task': task, 'alg': alg, 'aver': list(aver),
                     'sv': sv, 'sver': list(sver), 'vn': vn,
                     'vver': list(self.v('v', task, alg, sv, vn))}
-        if x < 0.88:
+        if kind == 'next':
             return {'op': 'next'}
-        if x < 0.92:
+        if kind == 'names':
             return {'op': 'names'}
-        if x < 0.96:
+        if kind == 'trace':
             tans = [[r.choice(self.tasks), r.choice(self.algs)]
                     for _ in range(r.randint(1, 2))]
             return {'op': 'trace', 'tans': tans}
@@ -551,8 +594,8 @@ class Oracle:
                 if want is not None:
                     confus = [x for x in self.c06_updates
                               if x != ident + (hop['tn'],)
-                              and (x[0], x[3], x[5]) == (ident[0], ident[3], ident[5])
-                              and (x[1] == ident[1] or x[1].startswith(ident[1])
+                              and (x[3], x[5]) == (ident[3], ident[5])
+                              and (x[1].startswith(ident[1])
                                    or ident[1].startswith(x[1]))]
                     if confus:
                         self.nontrivial['C06'] = True
@@ -680,15 +723,18 @@ def run_oracles(hist, res):
     for si, (hop, ob) in enumerate(zip(hist, obs)):
         idx_after = ob['dump']['indices'] if 'dump' in ob else None
         orc.step(hop, ob, before, idx_after)
+        # ids are never reassigned (checked above at every reopen): the
+        # indices at this step are the prefixes of the final ones
+        idx_now = [ix[:n] for ix, n in zip(final_idx, ob['lens'])]
         if 'exc' not in ob['reply']:
             if hop['op'] == 'remove' and before is not None:
-                remove_oracle(orc, hop, before, ob, final_idx)
+                remove_oracle(orc, hop, before, ob, idx_now)
             elif hop['op'] == 'names':
-                names_oracle(orc, hop, ob, final_idx)
+                names_oracle(orc, hop, ob, idx_now)
             elif hop['op'] == 'trace':
-                trace_oracle(orc, hop, ob, final_idx)
+                trace_oracle(orc, hop, ob, idx_now)
             elif hop['op'] == 'reset':
-                reset_oracle(orc, hop, ob, final_idx)
+                reset_oracle(orc, hop, ob, idx_now)
             elif hop['op'] == 'reopen':
                 if any(h['op'] in ('upd', 'load', 'reg', 'add') for h in hist[:si + 1]):
                     orc.nontrivial['C08'] = True
@@ -718,57 +764,73 @@ def run_oracles(hist, res):
 _CACHE = {}
 
 
-def histories(ctx, n_random, n_sweep, length):
+def histories(ctx, n_random, n_sweep, length, focus='C08'):
     hs = [('directed', h) for h in directed()]
     for i in range(n_random):
-        rng = random.Random('%s:store:%d' % (ctx.seed, i))
-        hs.append(('random', Gen(rng).history(rng.randint(length // 2, length))))
+        rng = random.Random('%s:%s:store:%d' % (ctx.seed, focus, i))
+        hs.append(('random', Gen(rng, focus=focus).history(
+            rng.randint(length // 2, length))))
     for i in range(n_sweep):
         rng = random.Random('%s:sweep:%d' % (ctx.seed, i))
         hs.append(('sweep', crash_sweep(rng, fresh=(i % 2 == 0))))
     return hs
 
 
-def model_eval(ctx, hist_list):
-    '''returns per history the list of canonical model observations and the
-    final (indices, tables)'''
-    exprs, plans = [], []
-    for h in hist_list:
-        codes = Codes()
-        subs = [expand(hop, codes) for hop in h]
-        flat = [o for s in subs for o in s]
-        ops = '[' + '; '.join(flat) + ']'
-        exprs.append('run_io %s' % ops)
-        plans.append((codes, subs))
-    vals = ctx.coq_eval(['DV.Model.Catalogue', 'DV.Model.Store',
-                         'DV.Model.StoreIO'], exprs, z_scope=False, chunk=10,
-                        preamble='Open Scope string_scope.')
+def model_eval(ctx, hist_list, chunk=10):
+    '''returns per history (content table, canonical model observations,
+    final (indices, tables))'''
     out = []
-    for h, (codes, subs), v in zip(hist_list, plans, vals):
-        mobs, fin = v
-        pos = 0
-        canon = []
-        for hop, s in zip(h, subs):
-            part = mobs[pos:pos + len(s)]
-            pos += len(s)
-            canon.append(canon_model(hop, part) if part else None)
-        out.append((codes, canon, fin))
+    for lo in range(0, len(hist_list), chunk * 14):
+        part = hist_list[lo:lo + chunk * 14]
+        # names are Coq definitions of the preamble (parsed once per file)
+        allnames = Names()
+        exprs, plans = [], []
+        for h in part:
+            codes = Codes()
+            groups = [expand(hop, codes, allnames) for hop in h]
+            exprs.append('run_io [%s]' % '; '.join(groups))
+            plans.append(codes)
+        vals = ctx.coq_eval(
+            ['DV.Model.Catalogue', 'DV.Model.Store', 'DV.Model.StoreIO'], exprs,
+            z_scope=False, chunk=chunk,
+            preamble='Open Scope string_scope.\n' + allnames.preamble())
+        for h, codes, v in zip(part, plans, vals):
+            gobs, fin = v
+            canon = [canon_model(hop, g) for hop, g in zip(h, gobs)]
+            out.append((codes, canon, fin))
     return out
 
 
-def study(ctx, escalate=False):
-    '''runs once per process; returns dict with everything the three checks need'''
-    key = (ctx.tier, ctx.seed, escalate)
+def study(ctx, focus, escalate=False):
+    '''runs once per process; returns dict with everything the check needs'''
+    key = (ctx.tier, ctx.seed, escalate, focus)
     if key in _CACHE:
         return _CACHE[key]
     deep = (not ctx.quick) or escalate
-    n_random = 600 if deep else 110
-    n_sweep = 200 if deep else 24
-    length = 28 if deep else 22
-    hs = histories(ctx, n_random, n_sweep, length)
+    q_r, q_s, t_r, t_s = SIZES[focus]
+    n_random = t_r if deep else q_r
+    n_sweep = t_s if deep else q_s
+    length = 26 if deep else 20
+    hs = histories(ctx, n_random, n_sweep, length, focus)
     hist_list = [h for _, h in hs]
-    impl = ctx.harness('drive_store.py', {'histories': hist_list})['histories']
-    model = model_eval(ctx, hist_list)
+    import threading
+    box = {}
+
+    def run_impl():
+        try:
+            box['impl'] = ctx.harness('drive_store.py', {'histories': hist_list})
+        except Exception as e:   # re-raised in the main thread
+            box['err'] = e
+
+    th = threading.Thread(target=run_impl)
+    th.start()
+    try:
+        model = model_eval(ctx, hist_list)
+    finally:
+        th.join()
+    if 'err' in box:
+        raise box['err']
+    impl = box['impl']['histories']
     res = {'hs': hs, 'mismatch': None, 'hits': [], 'n_ops': 0, 'ops_hist': {},
            'nontrivial': {'C06': [], 'C07': [], 'C08': []}, 'evals': 0,
            'crash_points': 0, 'msv_ok': True}
